@@ -54,7 +54,7 @@ CHECKS = {
   "Trusted: controlled listener/conn (300 lines), porcupine v1.3.0, bounded progress (10 s per loop step, 20 s for the serving call to return). The drain grace (8 ms) and late-connection window (3 ms) are one-sided.",
   "runtime monitor: deterministic schedule control at the net.Listener boundary (bounded-exhaustive histories) + event-order oracle; porcupine linearizability check of recorded real-socket histories", "DESIGN.md §4 C14"),
  "C15": ("e-life", "exploration",
-  "(A) The controlled listener's deadline is virtual: SetDeadline arms it and the harness makes the parked Accept return a timeout error, so every valid history over {connect, call, close, abort, expiry} up to length 5 (thorough 7) places expiries exactly while a connection is verifiably open (must re-arm, re-enter Accept, keep serving) or after the active count reached 0 (must return ServiceTimeoutError with the listener closed); timeout 0 must never arm nor stop. The same object is afterwards served the other way round (timed/untimed), some histories follow a period ended by Shutdown with open connections. (B) real clock, T=150 ms, one-sided margins: second client served after 2.5 T with one connection open; ServiceTimeoutError after the last close; then dial fails, socket file gone, same address served again at once. A connection late in the period must postpone the stop to at least T after it began to dial (exact, one-sided); 26 connections closing at the same instant.",
+  "(A) The controlled listener's deadline is virtual: SetDeadline arms it and the harness makes the parked Accept return a timeout error, so every valid history over {connect, call, close, abort, expiry} up to length 5 (thorough 10) places expiries exactly while a connection is verifiably open (must re-arm, re-enter Accept, keep serving) or after the active count reached 0 (must return ServiceTimeoutError with the listener closed); timeout 0 must never arm nor stop. The same object is afterwards served the other way round (timed/untimed), some histories follow a period ended by Shutdown with open connections. (B) real clock, T=150 ms, one-sided margins: second client served after 2.5 T with one connection open; ServiceTimeoutError after the last close; then dial fails, socket file gone, same address served again at once. A connection late in the period must postpone the stop to at least T after it began to dial (exact, one-sided); 26 connections closing at the same instant.",
   "Trusted: controlled listener; real-clock part asserts only what holds for a correct service under any load (bounds 200 T).",
   "runtime monitor: virtual-time fault injection (accept-timeout expiry) at the net.Listener boundary over bounded-exhaustive histories + event-order oracle; real-clock one-sided checks", "DESIGN.md §4 C15"),
  "C16": ("e-race", "exploration",
